@@ -2,7 +2,7 @@
 // One case per input line, fields separated by one space, strings as hex UTF-16 code units
 // (4 hex digits per unit, "-" = empty (non-null) string, "~" = null pointer for category/file/function
 // and a null QString for the message):
-//   pat type msg cat file fn line nattr (key tval)* ntf (timefmt)* [prefmt twice [seq [gap delay again]]]
+//   pat type msg cat file fn line nattr (key tval)* ntf (timefmt)* [prefmt twice [seq [gap delay again [locale]]]]
 //   prefmt = ~ (none) or the text given to setFormattedMessage() BEFORE format() is called (another formatter ran first);
 //   twice = 1: the formatter is first run through Formatter::process() on the message, then format() is observed.
 //   %{message} is the raw message text in every case.
@@ -20,6 +20,11 @@
 //   again = after the observed call: sleep, then format the SAME LogMessage again with the same formatter object;
 //           the text may not change (output group, see below).  With the timing fields present the second call is
 //           always made (again = 0: immediately).
+//   locale (optional, hex; ~ or absent = none) = name of a QLocale (de_DE, fr_FR, en_IN, ar_EG ...) that is made the application-wide
+//           DEFAULT locale (QLocale::setDefault) before the formatter objects are constructed and stays it during every format()
+//           call on the object under test (first call, second call, fresh object); the start-up default is restored before the
+//           environment groups are computed (they are rendered under QLocale::c()).  The documented rules know no locale: every
+//           number (%{time process}, %{time boot}, %{line}, %{threadid}, int attributes) is plain C text under every default locale.
 //   tval = s<hex> (QString; s~ = null QString, s- = empty) | i<decimal> (int / qlonglong) | b0 | b1 (bool)
 //
 // default mode, output line:
@@ -56,6 +61,7 @@
 #else
 #include "qtlogger/qtlogger.h"
 #endif
+#include <QLocale>
 #include <algorithm>
 #include <atomic>
 #include <chrono>
@@ -94,6 +100,7 @@ struct Case
     long seq = -1;              // >= 0: position in a sequence of messages formatted by one kept formatter object
     bool timing = false;        // the timing fields are present (two more output groups)
     long gap = 0, delay = 0, again = 0;
+    QString locale;             // non-empty: the default QLocale while the object under test works
     // threads mode
     std::unique_ptr<PatternFormatter> pf;
     QString expected, firstBad;
@@ -125,6 +132,7 @@ static void parse(const std::string &line, Case &k, bool honourGap = false)
         pre = nxt(); twice = nxt();
         if (i < f.size()) k.seq = num();
         if (i + 2 < f.size()) { k.timing = true; k.gap = num(); k.delay = num(); k.again = num(); }
+        if (i < f.size()) k.locale = unhex(nxt());
     }
     if (honourGap) {
         if (k.gap > 0) sleepMs(k.gap);
@@ -202,6 +210,20 @@ static void calibrateProcessStart(ns_t mainStart)
         (void)processEnv(cm, PatternFormatter(QStringLiteral("%{time process}")).format(cm));
     }
 }
+// the application-wide default locale while the object under test works; the previous default comes back in the destructor
+struct DefaultLocale
+{
+    QLocale saved;          // QLocale() = the current default
+    bool active = false;
+    explicit DefaultLocale(const QString &name)
+    {
+        if (name.isEmpty()) return;
+        QLocale::setDefault(QLocale(name));
+        active = true;
+    }
+    void restore() { if (active) { QLocale::setDefault(saved); active = false; } }
+    ~DefaultLocale() { restore(); }
+};
 static int threadsMode(int K, long rounds, long maxms)
 {
     std::vector<std::unique_ptr<Case>> cs;
@@ -263,6 +285,7 @@ int main(int argc, char **argv)
                 LogMessage pm(QtDebugMsg, QMessageLogContext(), QStringLiteral("poison"));
                 (void)PatternFormatter(QStringLiteral("p%{verif_poison_attr?0,3}")).format(pm);
             }
+            DefaultLocale dl(k.locale);
             std::unique_ptr<PatternFormatter> own;
             if (k.seq < 0) own.reset(new PatternFormatter(k.pat));
             else if (k.seq == 0) { kept.reset(new PatternFormatter(k.pat)); keptPat = k.pat; }
@@ -277,6 +300,8 @@ int main(int argc, char **argv)
                 res2 = pf.format(m);      // the same object, the same LogMessage, later
             }
             if (k.timing || k.seq >= 0) fres = PatternFormatter(k.pat).format(m);
+            dl.restore();                 // the environment below is computed under the C locale
+            DefaultLocale envc(QStringLiteral("C"));
             o << hex(res) << ' ' << (res.isNull() ? 'N' : 'V') << ' ' << m.threadId() << ' ' << qulonglong(m.qthreadptr()) << ' '
               << hex(PatternFormatter(QStringLiteral("%{func}")).format(m));
             for (const QString &t : k.tfs) {
